@@ -15,6 +15,16 @@ METHODS = ('on_read_timeout', 'on_write_timeout', 'on_unavailable', 'on_request_
 RETRYING = ('RETRY', 'RETRY_NEXT_HOST')
 
 
+def _last_value(path, name):
+    """the expression last assigned to a local on this path (plain `name = expr`), or None"""
+    v = None
+    for n in path.nodes:
+        a = getattr(n, 'ast', None)
+        if n.kind == 'stmt' and isinstance(a, ast.Assign) and len(a.targets) == 1 and isinstance(a.targets[0], ast.Name) and a.targets[0].id == name:
+            v = a.value
+    return v
+
+
 def rows_of(func, inline=None):
     """[(conds {atom: bool}, decision, level expr text, raw conds)] for every path ending in a return."""
     out = []
@@ -46,10 +56,16 @@ def rows_of(func, inline=None):
                         c3[k.replace('num_responses', arg)] = b
                     out.append((c3, dec, lvl, p))
                 continue
+            if isinstance(val, ast.Name):
+                val = _last_value(p, val.id) or val
             if not (isinstance(val, ast.Tuple) and len(val.elts) == 2):
                 raise AnalysisError('%s returns %s, not a (decision, level) pair' % (func.name, src(val)))
-            d = chain(val.elts[0])
-            out.append((c, d[-1] if d else src(val.elts[0]), src(val.elts[1]), p))
+            # a local standing for the decision or the level is read as the value it was last given on this path
+            e0 = _last_value(p, val.elts[0].id) if isinstance(val.elts[0], ast.Name) else None
+            e1 = _last_value(p, val.elts[1].id) if isinstance(val.elts[1], ast.Name) else None
+            e0, e1 = e0 or val.elts[0], e1 or val.elts[1]
+            d = chain(e0)
+            out.append((c, d[-1] if d else src(e0), src(e1), p))
     return out
 
 
